@@ -1,0 +1,16 @@
+//go:build verif
+
+package plz
+
+import (
+	"github.com/thought-machine/please/src/cli"
+	"github.com/thought-machine/please/src/core"
+)
+
+// Verification hook for property C22 (`//dir/...` expansion). Add-only; compiled only with -tags verif.
+
+// VerifC22FindOriginalTask runs the unexported findOriginalTask for one command-line label on the host
+// architecture, adding the resulting labels to the state's original targets and its parse queue.
+func VerifC22FindOriginalTask(state *core.BuildState, target core.BuildLabel) {
+	findOriginalTask(state, target, true, cli.HostArch())
+}
